@@ -129,9 +129,13 @@ def source_shapes(src_text):
 
 # ---------------------------------------------------------------- attribution
 
-def clobber_shape_suffix(srcs):
+def clobber_shape_suffix(srcs, signature=""):
+    """qualify a clobber signature by the shapes of the open findings that can explain it: aliasing
+    (D5/D37) and nested loops (D39) explain clobbers inside one scope, a nested definition (D36) any"""
     shapes = sorted(set().union(*[source_shapes(t) for t in srcs.values()]))
-    return "".join(":" + s for s in shapes if s.startswith(("D36", "D37", "D39", "D5-")))
+    same = ":same-scope" in signature or signature == ""
+    keep = ("D36",) + (("D37", "D39", "D5-") if same else ())
+    return "".join(":" + s for s in shapes if s.startswith(keep))
 
 
 def shape_suffix(srcs):
@@ -231,7 +235,7 @@ def diff_run(srcs, opts, env_seed, pool, K, res=None, src_steps=20000):
         sig, extra = attribute(res, env_seed, pool, budget, K)
         # clobbers are qualified by the shapes of the open aliasing / nested-function findings
         if sig and sig.startswith("C04:clobber"):
-            sig += clobber_shape_suffix(srcs)
+            sig += clobber_shape_suffix(srcs, sig)
         out["root"] = sig
         out["root_detail"] = extra
     return out
